@@ -74,7 +74,7 @@ func c13Ops() []c13Op {
 		{name: "dns big.test (18 matching rules, held)", query: d("big.test", 1, "", ""), slot: 7},
 		{name: "dns kid.test as tv/192.168.1.5", query: d("kid.test", 1, "tv", "192.168.1.5"), slot: -1},
 		{name: "dns kid.test as kid-laptop/192.168.1.5", query: d("kid.test", 1, "kid-laptop", "192.168.1.5"), slot: -1},
-		{name: "dns blocked.test anonymous", query: d("blocked.test", 1, "", ""), slot: -1},
+		{name: "dns blocked.test anonymous through DNSEngine.Match(hostname)", query: &scen.Query{Kind: "dnsmatch", Host: "blocked.test"}, slot: -1},
 		{name: "dns tagged.test A no tags", query: d("tagged.test", 1, "", ""), slot: -1},
 		{name: "netall example.org/ads from example.org", query: q("netall", "http://example.org/ads?u=example.org", "http://example.org/", rules.TypeScript), slot: -1},
 		{name: "netmatch example.org/ads from example.org (two equal-priority rules of the domains table)", query: q("netmatch", "http://example.org/ads", "http://example.org/", rules.TypeScript), slot: -1},
@@ -82,6 +82,7 @@ func c13Ops() []c13Op {
 		{name: "engine example.org/ads from other.org", query: q("engine", "http://example.org/ads", "http://other.org/", rules.TypeScript), slot: 2},
 		{name: "netmatch ads.example.com", query: q("netmatch", "http://ads.example.com/x", "", rules.TypeScript), slot: -1},
 		{name: "engine cdn.test/lib.js from docsite.test (document exception on the referrer)", query: q("engine", "http://cdn.test/lib.js", "http://docsite.test/", rules.TypeScript), slot: 3},
+		{name: "dns kid.test through DNSEngine.Match(hostname)", query: &scen.Query{Kind: "dnsmatch", Host: "kid.test"}, slot: -1},
 		{name: "dns metrics.example.com", query: d("metrics.example.com", 1, "", ""), slot: -1},
 		{name: "engine tracker.test from news.example.org/reader/ (path-specific $urlblock on the referrer)", query: q("engine", "http://tracker.test/t.js", "http://news.example.org/reader/a", rules.TypeScript), slot: -1},
 		{name: "engine tracker.test from news.example.org/front", query: q("engine", "http://tracker.test/t.js", "http://news.example.org/front", rules.TypeScript), slot: -1},
